@@ -5,7 +5,8 @@ from props.hist import PLATFORMS
 RULE = ("op sequences over {fill(n), read(n), set_position(p), seek(Start/Current/End), position, clone} on roots "
         "from chunk and parent states in all modes and from merge_subtrees_root_xof; positions drawn from 0..200, "
         "2^38+-200 (block counter crossing 2^32), 2^63+-200, near 2^64-1; fill sizes 0..300 and 1000..5000; "
-        "exhaustive (p mod 64, n) grid at three bases. Non-trivial = distinct sequence with a partial-block read or a seek.")
+        "exhaustive (p mod 64, n) grid at three bases; wide fills of 2..33 blocks started 1..17 blocks below output "
+        "block 2^32 (every xof_many group shape straddling the counter carry). Non-trivial = distinct sequence with a partial-block read or a seek.")
 MODELLED = ["Platform::xof_many AVX-512 path: platform record (PlatformOK), tied by C05 and by the forced-platform runs here"]
 ASSUMPTIONS = ["reads stay below 2^64-1 (beyond that the documentation says unspecified)"]
 
@@ -89,6 +90,25 @@ def gen_cases(seed, tier):
                         lines.append(f"H hash {plat} " + " ".join(ops))
                         ops = [f"u:0:paint/0/{rng.choice([3, 1025])}", "xo:0"]
             lines.append(f"H hash {plat} " + " ".join(ops))
+        # wide fills that straddle output block 2^32 (byte position 2^38): Platform::xof_many hands the
+        # whole blocks of one fill to the 16/8/4/2/1-wide kernels in groups; every group shape must carry the
+        # 32-bit counter into the high word at every lane.  Start k blocks below 2^32, fill m blocks (+ partial).
+        ks = list(range(1, 18)) if tier == "thorough" else [1, 2, 3, 4, 5, 7, 8, 9, 12, 15, 16, 17]
+        ms_ = [2, 3, 4, 5, 7, 8, 9, 12, 15, 16, 17, 24, 31, 32, 33]
+        ops = ["u:0:paint/0/1025", "xo:0"]
+        idx = 0
+        for k in ks:
+            for m in ms_:
+                idx += 1
+                if tier != "thorough" and (idx + seed) % 3:
+                    continue
+                off = rng.choice([0, 0, 17, 63])
+                ops += [f"rs:0:{((1 << 32) - k) * 64 + off}", f"rf:0:{64 * m + rng.choice([0, 0, 5])}", "rp:0"]
+                if len(ops) > 60:
+                    lines.append(f"H {rng.choice(ms)} {plat} " + " ".join(ops))
+                    ops = ["u:0:paint/0/1025", "xo:0"]
+        if len(ops) > 2:
+            lines.append(f"H {rng.choice(ms)} {plat} " + " ".join(ops))
     return number(lines)
 
 
